@@ -1562,7 +1562,9 @@ impl<'source> FormatItem<'source> {
                     _ if item.is_indented_block() => {
                         // No need to worry about adjusting the line width here,
                         // an indented block is always the last item in a group.
-                        item.render(&mut item_buffer, false, false, options, group_column)?;
+                        // The block is indented relative to the group's start column, even if an
+                        // earlier item (e.g. a comment) has already been placed on an indented line.
+                        item.render(&mut item_buffer, false, false, options, column)?;
                         output.extend(item_buffer.drain(..));
                         group_break = GroupBreak::None;
                     }
